@@ -249,6 +249,46 @@ func runMode(sum *lib.Summary) {
 		add(g.program(catRecurse), "unbounded-recursion", 10_000_000, 0, d, true)
 	}
 
+	// recursion with a mix of other call forms at every level (balanced depth accounting)
+	addMix := func(pre, post, base []int, n int, unbounded bool, comp, depth uint64, cat string) {
+		cad, coq, descr := mixProgram(pre, post, base, n, unbounded)
+		for _, vm := range []bool{false, true} {
+			funs, main := coq(vm)
+			cases = append(cases, fragCase{P: program{Cad: cad, Funs: funs, Main: main, Descr: descr},
+				VM: vm, Comp: comp, Depth: depth, Cat: cat, Compare: true})
+		}
+	}
+	for i := range callForms {
+		// every form alone: terminating, exact charges; and under a small limit around the boundary
+		addMix([]int{i}, nil, nil, 3, false, 10_000_000, 0, "call-form")
+		addMix(nil, []int{i}, []int{i}, 2, false, 10_000_000, 0, "call-form")
+		for _, n := range []int{7, 8, 9, 10, 11} {
+			if *tier == "thorough" || n == 8+i%3 {
+				addMix([]int{i}, nil, []int{i}, n, false, 10_000_000, 10, "call-mix-boundary")
+			}
+		}
+	}
+	// the shape of a depth counter that is decremented without having been incremented: one (two) invocations on
+	// nil per level, recursion far beyond the limit
+	addMix([]int{0}, nil, nil, 1000, false, 10_000_000, 50, "call-mix-boundary")
+	addMix([]int{0, 1}, []int{0}, nil, 400, false, 10_000_000, 10, "call-mix-boundary")
+	nMix, nMixUnb := 45, 8
+	if *tier == "thorough" {
+		nMix, nMixUnb = 500, 60
+	}
+	for i := 0; i < nMix; i++ {
+		d := []uint64{10, 50}[rng.Intn(2)]
+		n := int(d) - 4 + rng.Intn(8)
+		if rng.Chance(1, 6) {
+			n = int(d) * (2 + rng.Intn(4))
+		}
+		addMix(pickForms(rng, 3), pickForms(rng, 2), pickForms(rng, 2), n, false, 10_000_000, d, "call-mix-boundary")
+	}
+	for i := 0; i < nMixUnb; i++ {
+		d := []uint64{10, 50}[rng.Intn(2)]
+		addMix(pickForms(rng, 3), pickForms(rng, 2), nil, 1, true, 300_000, d, "call-mix-unbounded")
+	}
+
 	cw := &lib.CaseWriter{
 		Dir: *dir, Prefix: "cases_C30", Header: "From CV Require Import C30.Cases.",
 		ElemType: "bool * Z * Z * Z * list (list stmt) * list stmt * obs", CheckFn: "check_case", PerFile: 40,
